@@ -268,3 +268,125 @@ func VerifC17_ipLiteral() {
 		}
 	}
 }
+
+// ---- the type check reaches a call wherever it sits in the expression ----
+
+// callsC17: a few primitives of every arity (documented signatures) and an unknown one.
+var callsC17 = []protoC17{
+	{"default_t", ""}, {"req_host_in", "S"}, {"req_path_in", "SB"}, {"req_cip_range", "SS"},
+	{"req_cookie_value_in", "SSB"}, {"no_such_primitive", "?"},
+}
+
+// wrapC17 puts the call x into one of the expression contexts of the grammar (g is a well-typed call).
+const nContextsC17 = 10
+
+func wrapC17(ctx int, x parser.Expr) parser.Expr {
+	g := &parser.CallExpr{Fun: &parser.Ident{Name: "default_t"}}
+	not := func(e parser.Expr) parser.Expr { return &parser.UnaryExpr{X: e, Op: parser.NOT} }
+	paren := func(e parser.Expr) parser.Expr { return &parser.ParenExpr{X: e} }
+	bin := func(a parser.Expr, op parser.Token, b parser.Expr) parser.Expr {
+		return &parser.BinaryExpr{X: a, Op: op, Y: b}
+	}
+	switch ctx {
+	case 0:
+		return x
+	case 1:
+		return not(x)
+	case 2:
+		return not(not(x))
+	case 3:
+		return paren(x)
+	case 4:
+		return not(paren(x))
+	case 5:
+		return bin(g, parser.LAND, x)
+	case 6:
+		return bin(g, parser.LAND, not(x))
+	case 7:
+		return bin(not(x), parser.LOR, g)
+	case 8:
+		return not(paren(bin(g, parser.LOR, x)))
+	}
+	return paren(bin(not(paren(x)), parser.LAND, g))
+}
+
+// VerifC17_callInContext: a call (known primitive of arity 0..3 or an unknown name, 0..3 arguments of
+// symbolic kinds) placed as operand of !, !!, ( ), !( ), && / || (left or right, negated or not) in a
+// hand-built AST; the real semantic passes of Parser.Parse (Inspect + primitiveCheck) must report an error
+// whenever the call does not have the documented signature - wherever the call sits -, and the real build
+// of a checked tree returns a condition xor an error without panicking.
+func VerifC17_callInContext() {
+	if vrt.Choose("level", 2) == 1 {
+		negatedCallTextC17()
+		return
+	}
+	c := callsC17[vrt.Choose("call", len(callsC17))]
+	n := vrt.Range("nargs", 0, 3)
+	call := &parser.CallExpr{Fun: &parser.Ident{Name: c.name}}
+	match := c.sig != "?" && n == len(c.sig)
+	for i := 0; i < n; i++ {
+		k := vrt.Int("kind")
+		vrt.Assume(k == int(parser.STRING) || k == int(parser.BOOL) || k == int(parser.INT))
+		// "1.1.1.1" is a valid value for every STRING parameter of the calls above
+		call.Args = append(call.Args, &parser.BasicLit{Kind: parser.Token(k), Value: "1.1.1.1"})
+		if i < len(c.sig) {
+			want := int(parser.STRING)
+			if c.sig[i] == 'B' {
+				want = int(parser.BOOL)
+			}
+			match = match && k == want
+		}
+	}
+	ast := wrapC17(vrt.Choose("context", nContextsC17), call)
+	errs, _ := parser.SemanticCheckC17(ast)
+	if !match {
+		vrt.Assert(errs > 0, "C17/ill-typed-call-is-reported-in-every-context")
+		return
+	}
+	if errs > 0 {
+		return
+	}
+	vrt.Cover("C17/well-typed-call-passes-in-context")
+	cond, err := build(ast)
+	checkResultC17(cond, err)
+}
+
+// negatedCallTextC17 (second half of VerifC17_callInContext; one entry point because every harness of this
+// package pays ~10 s of package initialisation): the same question at the observation point of the property, condition.Build
+// on source text: ill-typed or unknown calls under ! (and in the other contexts) are rejected with an
+// error, not accepted and not a panic; their well-typed counterparts build.
+var badCallsC17 = []string{
+	"!req_host_in()",
+	"!req_path_in(\"/a\")",
+	"!req_path_in(\"/a\", \"true\")",
+	"!default_t(\"x\")",
+	"!no_such_primitive(\"x\")",
+	"!!req_host_in()",
+	"!(req_host_in())",
+	"default_t() && !req_host_in()",
+	"!req_cip_range(\"1.1.1.1\") || default_t()",
+	"!(default_t() || req_path_in(\"/a\"))",
+	"req_host_in()",
+	"default_t() || req_host_in(true)",
+}
+
+var goodCallsC17 = []string{
+	"!req_host_in(\"a\")",
+	"!req_path_in(\"/a\", true)",
+	"!!default_t()",
+	"!(default_t() || req_path_in(\"/a\", false))",
+	"default_t() && !req_cip_range(\"1.1.1.1\", \"1.1.1.2\")",
+}
+
+func negatedCallTextC17() {
+	i := vrt.Choose("source", len(badCallsC17)+len(goodCallsC17))
+	if i < len(badCallsC17) {
+		cond, err := Build(badCallsC17[i])
+		checkResultC17(cond, err)
+		vrt.Assert(err != nil, "C17/ill-typed-call-rejected-by-build")
+		return
+	}
+	cond, err := Build(goodCallsC17[i-len(badCallsC17)])
+	checkResultC17(cond, err)
+	vrt.Assert(err == nil, "C17/well-typed-negated-call-builds")
+}
